@@ -46,6 +46,8 @@ type Input struct {
 	Timed *TimedIn `json:"timed,omitempty"`
 	// timed operator-level case with a shared queue that is held (held.go)
 	Held *HeldIn `json:"held,omitempty"`
+	// timed operator-level case with hooks of every shape: start-up, idle periods, single events (shape.go)
+	Shape *ShapeIn `json:"shape,omitempty"`
 	// Seq is the list delta debugging may shorten (Spec.ShrinkKey): a mirror of Arrivals
 	// (limiter level), of Op.Acts (operator level), of Timed.Plan or of Held.Plan, written by Explicit into every recorded
 	// input; when present it wins over the list it mirrors.
@@ -54,6 +56,12 @@ type Input struct {
 
 // MarshalJSON keeps operator-level inputs free of the limiter-level members.
 func (in Input) MarshalJSON() ([]byte, error) {
+	if in.Shape != nil {
+		return json.Marshal(struct {
+			Shape *ShapeIn          `json:"shape"`
+			Seq   []json.RawMessage `json:"seq,omitempty"`
+		}{in.Shape, in.Seq})
+	}
 	if in.Held != nil {
 		return json.Marshal(struct {
 			Held *HeldIn           `json:"held"`
@@ -79,6 +87,19 @@ func (in Input) MarshalJSON() ([]byte, error) {
 // normalize applies Seq (see Input).
 func normalize(in Input) Input {
 	if in.Seq == nil {
+		return in
+	}
+	if in.Shape != nil {
+		t := *in.Shape
+		t.Plan = nil
+		for _, raw := range in.Seq {
+			var a SStep
+			if json.Unmarshal(raw, &a) == nil {
+				t.Plan = append(t.Plan, a)
+			}
+		}
+		in.Shape = &t
+		in.Seq = nil
 		return in
 	}
 	if in.Held != nil {
@@ -138,6 +159,13 @@ func normalize(in Input) Input {
 // instead of a seed, and Seq.
 func Explicit(in Input, obs *Obs) Input {
 	in = normalize(in)
+	if in.Shape != nil {
+		for _, a := range in.Shape.Plan {
+			b, _ := json.Marshal(a)
+			in.Seq = append(in.Seq, b)
+		}
+		return in
+	}
 	if in.Held != nil {
 		for _, a := range in.Held.Plan {
 			b, _ := json.Marshal(a)
@@ -187,6 +215,7 @@ type Obs struct {
 	Op      *OpObs    `json:"op,omitempty"`
 	Timed   *TimedObs `json:"timed,omitempty"`
 	Held    *HeldObs  `json:"held,omitempty"`
+	Shape   *ShapeObs `json:"shape,omitempty"`
 }
 
 var base = time.Unix(1_700_000_000, 0)
@@ -200,6 +229,10 @@ func load(cfg string) (*hook.Hook, error) {
 func Run(in Input) Obs {
 	var o Obs
 	in = normalize(in)
+	if in.Shape != nil {
+		o.Shape = runShape(*in.Shape)
+		return o
+	}
 	if in.Held != nil {
 		o.Held = runHeld(*in.Held)
 		return o
@@ -316,6 +349,13 @@ func coqActs(xs []*int64) string {
 
 func Render(in Input, obs *Obs, crash string) core.Case {
 	in = normalize(in)
+	if in.Shape != nil {
+		var so *ShapeObs
+		if obs != nil {
+			so = obs.Shape
+		}
+		return renderShape(*in.Shape, so, crash)
+	}
 	if in.Held != nil {
 		var ho *HeldObs
 		if obs != nil {
@@ -789,6 +829,11 @@ func Gen(r *core.Rng, tier string) ([]core.In[Input], bool) {
 	var ins []core.In[Input]
 	// the timed operator-level scenarios first: a violation is then reported at the level the
 	// property speaks about (executions of a hook that started)
+	shapeCorpus := ShapeCorpus()
+	for _, sc := range shapeCorpus[:1] {
+		sc := sc
+		ins = append(ins, core.In[Input]{Input: Input{Shape: &sc}, Stream: "corpus"})
+	}
 	for _, hc := range HeldCorpus() {
 		hc := hc
 		ins = append(ins, core.In[Input]{Input: Input{Held: &hc}, Stream: "corpus"})
@@ -807,14 +852,14 @@ func Gen(r *core.Rng, tier string) ([]core.In[Input], bool) {
 	// operator-level scenarios (their own PRNG stream, so that the limiter-level stream is the
 	// one it always was)
 	n, maxN, nOp, maxSteps := 400, 40, 90, 16
-	nConc, nTimed, nHeld := 24, 30, 18
+	nConc, nTimed, nHeld, nShape := 24, 30, 18, 22
 	switch tier {
 	case "thorough":
 		n, maxN, nOp, maxSteps = 20000, 60, 1500, 24
-		nConc, nTimed, nHeld = 400, 400, 400
+		nConc, nTimed, nHeld, nShape = 400, 400, 400, 300
 	case "search":
 		n, maxN, nOp, maxSteps = 3000, 40, 300, 20
-		nConc, nTimed, nHeld = 80, 100, 100
+		nConc, nTimed, nHeld, nShape = 80, 100, 100, 100
 	}
 	var lim, ops []core.In[Input]
 	for i := 0; i < n; i++ {
@@ -840,13 +885,31 @@ func Gen(r *core.Rng, tier string) ([]core.In[Input], bool) {
 	var slow []core.In[Input]
 	// shared queues that are held: their own PRNG stream again (the older streams stay what they were)
 	rh := ro.Fork()
+	// hooks of every shape: their own PRNG stream again
+	rs := ro.Fork()
 	if tier == "thorough" {
 		for _, hc := range HeldGrid() {
 			hc := hc
 			slow = append(slow, core.In[Input]{Input: Input{Held: &hc}, Stream: "held-grid"})
 		}
+		for _, sc := range ShapeGrid() {
+			sc := sc
+			slow = append(slow, core.In[Input]{Input: Input{Shape: &sc}, Stream: "shape-grid"})
+		}
 	}
-	for i := 0; i < nTimed || i < nConc || i < nHeld; i++ {
+	// the rest of the shape corpus is spread among the other slow cases (the driver hands contiguous
+	// chunks to its workers: the head of the list is the longest pole)
+	for _, sc := range shapeCorpus[1:] {
+		sc := sc
+		slow = append(slow, core.In[Input]{Input: Input{Shape: &sc}, Stream: "corpus"})
+	}
+	// (the shape cases begin a little later in the list: the corpus at its head is slow already)
+	const shapeShift = 4
+	for i := 0; i < nTimed || i < nConc || i < nHeld || i < nShape+shapeShift; i++ {
+		if i >= shapeShift && i < nShape+shapeShift {
+			sc := genShape(rs)
+			slow = append(slow, core.In[Input]{Input: Input{Shape: &sc}, Stream: "shape"})
+		}
 		if i < nHeld {
 			hc := genHeld(rh)
 			slow = append(slow, core.In[Input]{Input: Input{Held: &hc}, Stream: "held-shared-queue"})
@@ -892,6 +955,6 @@ func Gen(r *core.Rng, tier string) ([]core.In[Input], bool) {
 
 var Driver = core.Driver[Input, Obs]{
 	Spec: core.Spec{Property: "C18", Imports: []string{"C18_Model", "C18_Spec", "C18_Corr"}, Corr: "C18_Corr", Triggers: nil, ShrinkKey: "seq",
-		Rule: "SHARED QUEUE HELD (tag class:held): the real operator with SHORT intervals (I 100-200 ms, B 1-3): a hook with settings shares ONE queue (main or named) with an interleaving hook on the same crontab (their tasks alternate, nothing is combined) and with a holder whose executions the driver keeps open - optionally after a first run that fails, so that the queue sits in a 60-180 ms back-off too - for 1.2-2.5 intervals and more while 2-5 ticks for the limited hook arrive (steady at / faster than / slower than the permitted rate, burst, random); then the execution is released and the piled-up tasks are served; 1-2 such phases; thorough tier: also the grid B 1-3 x 5 arrival patterns x 2/4 events x main/named queue x back-off 0/120 ms (stream held-grid); variants: the interleaver or the limited hook itself is the slow one, the other hooks have limits of their own, the limited hook has a second binding in another queue; recorded per execution: queue, hook, the REAL task.GetQueuedAt(), the instant the start was SEEN, the instant (taken before the reply) the driver let it end; P = the window bound for every window that begins at an anchor valid for the hook (instant taken first, then every queue of the hook found empty or blocked inside an execution the driver holds open; in particular the instant just before each release) and ends at a seen start - no tolerance; cases with all bindings in one queue are also compared with the queue-level model C18_Model.serve run on the observed executions with the real queued-at and release instants: no start seen earlier than the model starts it; non-trivial = limited hook shares the queue, queue held longer than I, >= 2 tasks of one limited hook waiting at a release, an anchor taken at a release, >= 4 executions; distinct = distinct (hooks, settings, slow set, back-off, plan).  TIMED OPERATOR LEVEL (tag class:timed): the real operator with SHORT intervals (I 100-200 ms, B 1-3): a limited hook with schedule bindings in 2-3 DIFFERENT queues fed by one crontab or by crontabs fired a few ms apart (a second hook, with or without settings, may share crontabs and queues), 6-20 ticks, some with a pause that refills the bucket; executions end as soon as they are seen; several queue workers sleep in the limiter of ONE hook at once and wake up during the scenario; start instants are those at which the driver SEES the start (late, never early); P is the window bound for every window that begins at an anchor (an instant at which no execution was under way) and ends at an observed start - no tolerance; three modes: exact (~50%: a tick is issued only when the queues it feeds are empty, no crontab feeds two queues of one limited hook, and the next tick waits until the limiters have registered the requests - Limiter.TokensAt - so the workers ask in the order of the ticks) is also compared with the model run on the observed tick instants: same number of starts per hook, k-th start never earlier than the model's; wait (~20%: one crontab may feed two queues of a hook at once) and pile (~30%: ticks pile up behind the sleepers and are combined) are judged by P only; non-trivial = limited hook in >= 2 queues, >= 4 executions, >= 2 workers seen asleep in one hook's limiter at once; distinct = distinct (hooks, settings, plan).  CONCURRENT WAITERS (tag concurrent-waiters): limiter level with I 20-120 ms, B 1-3: B+2..B+4 goroutines call Hook.RateLimitWait(context.Background()) of one freshly loaded hook at once; the instants of their returns are judged by the same anchored bound and must not be earlier than the model's stacked grants (0 x B, I, 2I, ...); non-trivial = at least two waiters slept.  OPERATOR LEVEL (tag class:operator): the real operator in-process on a fake cluster with 1-3 v1 hooks, each with settings (I >= 30 s, B 1..4) or without, onStartup / schedule / kubernetes bindings in main or named queues shared between hooks or not; a script of Boot / Tick / KubeEv / Finish ok / Finish FAIL (30-75% of the finishes; allowFailure on some bindings) chosen from the observable state; the queues' back-off is 0-3 ms (TaskQueue.ExponentialBackoffFn); after every action queues, open executions, unlocked monitors and the queues waiting in Hook.RateLimitWait (positively observed through Limiter.Tokens()) are compared with the model, every execution start is recorded with its measured instant and P (window bound per hook with settings; no waiting for hooks without) is evaluated on them; non-trivial = a limited hook, >= 4 actions of >= 2 kinds, >= 2 executions and a worker seen waiting in the limiter; distinct = distinct (hooks, settings, script).  LIMITER LEVEL (tag class:limiter): a v1 hook configuration with a generated settings block (I as a Go duration string, B an integer; keys absent / 0 / negative / out of int32 at a low rate; YAML and JSON renderings; with onStartup, schedule or kubernetes bindings) is loaded by the real Hook.LoadConfig; the *rate.Limiter it builds is driven with ReserveN(t,1) on a synthetic clock (patterns: burst, steady, bursts+pauses, random, long-pause, jitter, unsorted) and, for unlimited hooks and I >= 10s, Hook.RateLimitWait is probed B+2 times with a 50 ms deadline on the wall clock; non-trivial = accepted configuration, >= 3 requests and (limited => at least one request delayed); distinct = distinct (settings, arrivals, probe size)"},
+		Rule: "HOOKS OF EVERY SHAPE (tag class:shape): the real operator started through its real Start() with SHORT intervals (I 100-300 ms, B 1-3): a limited hook with 1-6 kubernetes bindings (grouped / ungrouped, executeHookOnSynchronization on / off, events in main or named queues), 0-2 schedule bindings, sometimes onStartup; a second hook (no settings, or a limit of its own, up to 3 kubernetes bindings) beside it in 45%; phase 1 = the start-up: one Synchronization task per binding passes the limiter and is executed / combined with its group mates / skipped, executions end as soon as they are seen; phase 2 = 1-2 idle periods of N intervals (N = bindings+1, B+1, bindings or 7) each followed by B+1..B+3 SINGLE events (kubernetes event of one monitor or tick of one crontab, each issued only when every queue was found empty); thorough tier: also the grid B 1-3 x 1-6 bindings x {ungrouped, a group of two, one exempt} (stream shape-grid); recorded: the instant before Start(), every event with the instant before it was issued, every execution start with the instant it was SEEN, anchors (instant first, then every queue found empty), Limit()==Inf and Burst() of every loaded hook's limiter; P = the window bound with the CONFIGURED (I, B) for the window that begins before Start() and for every window that begins at an anchor, ending at a seen start - no tolerance; compared with the model C18_Model.run_shape (limiters from the settings alone) run on the observed instants: same number of executions per hook, no start seen earlier than the model's, same limiter; non-trivial = limited hook with >= 2 kubernetes bindings whose start-up asks the limiter more than B times, an idle period longer than B intervals followed by more than B single events of the hook, >= 4 executions of it; distinct = distinct (hook configurations, plan).  SHARED QUEUE HELD (tag class:held): the real operator with SHORT intervals (I 100-200 ms, B 1-3): a hook with settings shares ONE queue (main or named) with an interleaving hook on the same crontab (their tasks alternate, nothing is combined) and with a holder whose executions the driver keeps open - optionally after a first run that fails, so that the queue sits in a 60-180 ms back-off too - for 1.2-2.5 intervals and more while 2-5 ticks for the limited hook arrive (steady at / faster than / slower than the permitted rate, burst, random); then the execution is released and the piled-up tasks are served; 1-2 such phases; thorough tier: also the grid B 1-3 x 5 arrival patterns x 2/4 events x main/named queue x back-off 0/120 ms (stream held-grid); variants: the interleaver or the limited hook itself is the slow one, the other hooks have limits of their own, the limited hook has a second binding in another queue; recorded per execution: queue, hook, the REAL task.GetQueuedAt(), the instant the start was SEEN, the instant (taken before the reply) the driver let it end; P = the window bound for every window that begins at an anchor valid for the hook (instant taken first, then every queue of the hook found empty or blocked inside an execution the driver holds open; in particular the instant just before each release) and ends at a seen start - no tolerance; cases with all bindings in one queue are also compared with the queue-level model C18_Model.serve run on the observed executions with the real queued-at and release instants: no start seen earlier than the model starts it; non-trivial = limited hook shares the queue, queue held longer than I, >= 2 tasks of one limited hook waiting at a release, an anchor taken at a release, >= 4 executions; distinct = distinct (hooks, settings, slow set, back-off, plan).  TIMED OPERATOR LEVEL (tag class:timed): the real operator with SHORT intervals (I 100-200 ms, B 1-3): a limited hook with schedule bindings in 2-3 DIFFERENT queues fed by one crontab or by crontabs fired a few ms apart (a second hook, with or without settings, may share crontabs and queues), 6-20 ticks, some with a pause that refills the bucket; executions end as soon as they are seen; several queue workers sleep in the limiter of ONE hook at once and wake up during the scenario; start instants are those at which the driver SEES the start (late, never early); P is the window bound for every window that begins at an anchor (an instant at which no execution was under way) and ends at an observed start - no tolerance; three modes: exact (~50%: a tick is issued only when the queues it feeds are empty, no crontab feeds two queues of one limited hook, and the next tick waits until the limiters have registered the requests - Limiter.TokensAt - so the workers ask in the order of the ticks) is also compared with the model run on the observed tick instants: same number of starts per hook, k-th start never earlier than the model's; wait (~20%: one crontab may feed two queues of a hook at once) and pile (~30%: ticks pile up behind the sleepers and are combined) are judged by P only; non-trivial = limited hook in >= 2 queues, >= 4 executions, >= 2 workers seen asleep in one hook's limiter at once; distinct = distinct (hooks, settings, plan).  CONCURRENT WAITERS (tag concurrent-waiters): limiter level with I 20-120 ms, B 1-3: B+2..B+4 goroutines call Hook.RateLimitWait(context.Background()) of one freshly loaded hook at once; the instants of their returns are judged by the same anchored bound and must not be earlier than the model's stacked grants (0 x B, I, 2I, ...); non-trivial = at least two waiters slept.  OPERATOR LEVEL (tag class:operator): the real operator in-process on a fake cluster with 1-3 v1 hooks, each with settings (I >= 30 s, B 1..4) or without, onStartup / schedule / kubernetes bindings in main or named queues shared between hooks or not; a script of Boot / Tick / KubeEv / Finish ok / Finish FAIL (30-75% of the finishes; allowFailure on some bindings) chosen from the observable state; the queues' back-off is 0-3 ms (TaskQueue.ExponentialBackoffFn); after every action queues, open executions, unlocked monitors and the queues waiting in Hook.RateLimitWait (positively observed through Limiter.Tokens()) are compared with the model, every execution start is recorded with its measured instant and P (window bound per hook with settings; no waiting for hooks without) is evaluated on them; non-trivial = a limited hook, >= 4 actions of >= 2 kinds, >= 2 executions and a worker seen waiting in the limiter; distinct = distinct (hooks, settings, script).  LIMITER LEVEL (tag class:limiter): a v1 hook configuration with a generated settings block (I as a Go duration string, B an integer; keys absent / 0 / negative / out of int32 at a low rate; YAML and JSON renderings; with onStartup, schedule or kubernetes bindings) is loaded by the real Hook.LoadConfig; the *rate.Limiter it builds is driven with ReserveN(t,1) on a synthetic clock (patterns: burst, steady, bursts+pauses, random, long-pause, jitter, unsorted) and, for unlimited hooks and I >= 10s, Hook.RateLimitWait is probed B+2 times with a 50 ms deadline on the wall clock; non-trivial = accepted configuration, >= 3 requests and (limited => at least one request delayed); distinct = distinct (settings, arrivals, probe size)"},
 	Gen: Gen, Run: Run, Render: Render, Explicit: Explicit, PerShard: 130, Workers: 8, CaseTimout: 20 * time.Second,
 }
